@@ -41,6 +41,7 @@ def run(tier):
                 trusted_base=["python ast", "hv.cfg", "hv.kpe", "reference loop model in hv/rules/c13.py::_reference"])
     _a_c_cfg(chk)
     _b_unroll(chk, tier)
+    _d_factories_and_options(chk)
     _d_step_control(chk)
     _e_predictions(chk)
     _f_members(chk)
@@ -290,6 +291,55 @@ def _run_tape(tape, max_members, max_retries, params, tmin, tmax):
     fam = resp.attrs["family_repr"]
     info = resp.attrs["info"]
     return [ident(to_obj_array(f)) for f in fam], info, state
+
+
+def _d_factories_and_options(chk):
+    """The configured bounds reach the stepper that applies them, for both stepper kinds, and the target interval is
+    normalised component-wise (row 0 = lower bounds, row 1 = upper bounds) whatever the order it was typed in."""
+    STP = "hiten.algorithms.continuation.stepping"
+    SMIN, SMAX, POL = sp.Symbol("STEP_MIN"), sp.Symbol("STEP_MAX"), sp.Symbol("POLICY")
+    for maker, clsname in (("make_natural_stepper", "_NaturalParameterStep"), ("make_secant_stepper", "_SecantStep")):
+        got = {}
+
+        def ctor(ip_, a, k, got=got):
+            got.update(k)
+            got["args"] = a
+            return SymObj(None, dict(k), "stepper")
+
+        support = SymObj(None, {"seed": lambda t: None, "get_tangent": sp.Symbol("GET_TANGENT")}, "support")
+        ip = Interp(overrides={clsname: ctor}, decide=lambda c: False)
+        ip.isinstance_hook = lambda v, c: True
+        fac = ip.call_function(STP, maker, [])
+        try:
+            ip.apply(fac, [lambda *a: to_obj_array([sp.Symbol("r0")]), support, to_obj_array([sp.Symbol("seed0")]), to_obj_array([sp.Symbol("st0")]),
+                           lambda *a: to_obj_array([sp.Symbol("p0")]), SMIN, SMAX, POL], {})
+        except OutsideFragment as exc:
+            raise AnalysisError(f"{maker} factory outside fragment: {exc}")
+        ok = got.get("step_min") == SMIN and got.get("step_max") == SMAX and got.get("shrink_policy") == POL
+        chk.check(ok, "C13.d", f"{STP}::{maker}[bounds]",
+                  f"{maker} builds {clsname} with step_min={got.get('step_min')}, step_max={got.get('step_max')}, shrink_policy={got.get('shrink_policy')}: the configured "
+                  "bounds / policy do not reach the stepper (its defaults apply instead)", sample=f"{clsname}(step_min=step_min, step_max=step_max, shrink_policy=shrink_policy)")
+    chk.count("functions partially evaluated", 2)
+    omod, ocls = ri.find_def("hiten.algorithms.continuation.options", "ContinuationOptions")
+    for label, target, want in (("(hi, lo)", [5, 2], [[2], [5]]), ("(lo, hi)", [2, 5], [[2], [5]]),
+                                ("two parameters, mixed order", [[3, 1], [2, 5]], [[2, 1], [3, 5]]), ("two parameters, ordered", [[1, 2], [4, 3]], [[1, 2], [4, 3]])):
+        obj = SymObj(ClassRef(omod, ocls), {"target": to_obj_array(target), "step": None, "max_members": 10, "max_retries_per_step": 5, "step_min": sp.Rational(1, 10 ** 10),
+                                            "step_max": 1, "shrink_policy": None}, "options")
+        ip = Interp()
+        try:
+            ip.apply(ip.getattr(obj, "__post_init__"), [], {})
+        except KpeRaise:
+            pass          # later validation of unrelated fields
+        except OutsideFragment as exc:
+            raise AnalysisError(f"ContinuationOptions.__post_init__ outside fragment: {exc}")
+        tn = to_obj_array(obj.attrs.get("target"))
+        got = [[int(S(v)) for v in row] for row in tn.tolist()] if tn.ndim == 2 else None
+        if want == [[1, 2], [4, 3]]:
+            want = [[1, 2], [4, 3]]
+            want = [[min(1, 4), min(2, 3)], [max(1, 4), max(2, 3)]]
+        chk.check(got == want, "C13.a", f"hiten.algorithms.continuation.options::ContinuationOptions.__post_init__[target {label}]",
+                  f"target {target} is normalised to {got}, expected {want} (component-wise lower bounds in row 0, upper bounds in row 1)", sample=f"{target} -> {want}")
+    chk.count("functions partially evaluated", 4)
 
 
 def _b_unroll(chk, tier):
